@@ -97,4 +97,11 @@ CLAIMS.update({
          "mode B compiles rejected and accepted items in two crates with the real derives (incl. FromRepr) and reads rustc's JSON diagnostics per item file.",
          "DESIGN.md §6 C20", "Partial: 'reported at the offending item' is checked as 'an error whose span lies in the item's file' on the sampled items; the model distinguishes accept / reject / panic only, not message wording. syn's parsing of attribute syntax is exercised, not modelled."),
 })
+CLAIMS.update({
+ 'C19': ("Lean 4 proof over the per-derive table of emittable references (no_std-clean, through the crate path, not shadowable), tied to the code by 'references of real expansions are a subset of the table' + three rustc build configurations",
+         "lean/StrumProofs/C19.lean: no_std_ok, crate_path_respected, shadow_safe for all 15 non-deprecated derives (finite tables, kernel-evaluated), deprecated_needs_std, F5 witness pinned_display_needs_alloc. "
+         "Correspondence: (i) mode A - every expansion of the other properties' corpora, references extracted from the real token stream, must be within the model's list for that derive (a new allowed reference => no-failing-input-found; a disallowed one => violation); "
+         "(ii) mode B - the corpora compiled as #![no_std] lib without alloc (strum default-features = false), with strum only reachable as renamed dependency / nested re-export + #[strum(crate = ..)], and with mod core/std/alloc shadowing in every module.",
+         "DESIGN.md §6 C19", "Partial: the theorem is about which paths are emitted; that they resolve and type-check under the three configurations is rustc's verdict on the sampled corpora. FromRepr's expansion cannot be extracted in-process (proc_macro dependency): covered by (ii) only."),
+})
 NOT_CLAIMED = {}
